@@ -29,10 +29,13 @@ Families ==
 
 NsFor(f) == IF f.name = "W3" THEN {2}
             ELSE IF Tier = "thorough" THEN {n \in 2..5 : n >= f.M}
+                 \cup (IF f.name = "TAB" /\ f.M >= 2 /\ f.P <= 2 /\ f.seed <= 1 THEN {f.M - 1} ELSE {})
             ELSE IF Tier = "tiny" THEN {3}
             ELSE {n \in 3..4 : n >= f.M}
                  \* square and nearly square weighted basis matrices (N = M) for the tabulated families
                  \cup (IF f.name = "TAB" /\ f.M = 2 /\ f.P = 1 THEN {2} ELSE {})
+                 \* under-determined problems (N < M): the minimum norm solution is required
+                 \cup (IF f.name = "TAB" /\ f.M >= 2 /\ f.P = 1 /\ f.seed = 0 THEN {f.M - 1} ELSE {})
 
 AlphaVals == IF Tier = "thorough" THEN <<-1, 0, 1, 2>> ELSE <<-1, 0, 1>>
 (* three-parameter families get a thinner lattice *)
